@@ -163,6 +163,75 @@ pub fn cancellation() -> BoxedStrategy<Req> {
         }).boxed()
 }
 
+/// One corrupted entry at a structured position of a batch of any size up to 1100 (pool entries repeat beyond
+/// 300: duplicates are allowed), or none. Positions: first, last, last-1, around 64/128/256/512 and random -
+/// so that an entry that a chunked, truncated or early-exit implementation never looks at is corrupted in some
+/// case (added after the seeded change C13b: batches split into chunks of 256 with the remainder dropped,
+/// caught before only by one case in 24 of the large-batch check). Same cheap oracle as `cancellation`.
+pub fn single_corruption() -> BoxedStrategy<Req> {
+    let np = honest_pool().len();
+    let sizes = prop_oneof![
+        4 => 1usize..40,
+        3 => prop::sample::select(vec![63usize, 64, 65, 94, 95, 96, 127, 128, 129, 189, 190, 191, 255, 256, 257, 258, 300]),
+        1 => prop::sample::select(vec![511usize, 512, 513, 600, 767, 769, 1023, 1025, 1100]),
+        1 => 40usize..600,
+    ];
+    (sizes, any::<usize>(), 0usize..14, 0u8..8, any::<usize>(), any::<bool>()).prop_map(move |(n, start, pos, kind, bit, permute)| {
+        let mut v: Vec<Entry> = (0..n).map(|k| honest_pool()[(start % np + k) % np].clone()).collect();
+        let i = match pos {
+            0 => 0,
+            1 => n - 1,
+            2 => n.saturating_sub(2),
+            3 => 63,
+            4 => 64,
+            5 => 127,
+            6 => 128,
+            7 => 255,
+            8 => 256,
+            9 => 257,
+            10 => 512,
+            11 => n / 2,
+            _ => bit / 7,
+        } % n;
+        // kind 7 = no corruption (the batch must be accepted); kind 4 (pair) is replaced by a message flip
+        let kind = if kind == 4 { 1 } else { kind };
+        if kind != 7 {
+            corrupt(&mut v, i, i, kind, bit);
+        }
+        let _ = permute;
+        let mut r = encode(&v, 0, 1);
+        r.a.push(vec![(i & 0xff) as u8, (i >> 8) as u8, (i & 0xff) as u8, (i >> 8) as u8, kind]);
+        r
+    }).boxed()
+}
+
+/// oracle for `single_corruption`: the batch is accepted iff the one touched entry still passes the model's
+/// single verification (S canonical, R decodable and the equation; every other entry is an untouched pool entry)
+pub fn oracle_single(req: &Req, got: &Resp) -> Result<(), String> {
+    let idx = &req.a[5];
+    let i = idx[0] as usize | (idx[1] as usize) << 8;
+    let n = u16::from_le_bytes([req.a[0][0], req.a[0][1]]) as usize;
+    let mut p = 0usize;
+    let mut msg: &[u8] = &[];
+    for k in 0..n {
+        let l = u16::from_le_bytes([req.a[1][p], req.a[1][p + 1]]) as usize;
+        if k == i {
+            msg = &req.a[1][p + 2..p + 2 + l];
+        }
+        p += 2 + l;
+    }
+    let sig: [u8; 64] = req.a[2][64 * i..64 * i + 64].try_into().unwrap();
+    let pk: [u8; 32] = req.a[3][32 * i..32 * i + 32].try_into().unwrap();
+    // batch verification also requires R to decode (documented: an undecodable R is an error)
+    let r_ok = crate::model::ed::Aff::decompress(&sig[..32].try_into().unwrap()).is_some();
+    let want = (r_ok && eddsa::verify(&pk, &[], msg, &sig, eddsa::SCheck::Canonical)) as u8;
+    match got {
+        Resp::Ok(b) if b.len() == 1 && b[0] == want => Ok(()),
+        Resp::Ok(b) if b.len() == 1 => Err(format!("verify_batch returned {} for a batch of {} honest entries in which only entry {} was touched (corruption kind {}; that entry passes single verification: {})", if b[0] == 1 { "Ok" } else { "Err" }, n, i, idx[4], want == 1)),
+        g => Err(format!("sig.batch: {}", g.short())),
+    }
+}
+
 /// oracle for `cancellation`: the two modified entries are checked with the model's single-verification
 /// predicate (all other entries are untouched pool entries, valid by construction and by the self-check
 /// of the pool); the batch must be rejected iff one of them is invalid
@@ -220,7 +289,7 @@ pub fn classify(r: &Req, resp: &Resp) -> Vec<&'static str> {
     l
 }
 
-pub const RULE: &str = "batches of n in {0,1,2,3,8,33} (and one each of 94,95,96,190,250,400: Straus/Pippenger switch at 2n+1=190) drawn from a pool of honest entries (canonical torsion-free keys and R, mixed message lengths, several messages per key), with 0..3 corruptions (another honest key, message bit flip, another honest R, another valid S, the cancellation pair S_i+e / S_j-e, duplication; and a dedicated family of single cancellation / swap pairs at structured index distances 1,2,3,4,7,8,16,32,64,128,256 in batches of 2..257 distinct honest entries), error classes (S+l, undecodable R, each kind of slice-length mismatch), permutation and repeated calls; oracle = conjunction of the model's single-verification predicate over the entries (error classes must give Err, never a panic or Ok); non-trivial = >=2 entries with a corruption, n on a regime boundary, an error-class input or a repeated call";
+pub const RULE: &str = "batches of n in {0,1,2,3,8,33} (and one each of 94,95,96,190,250,400: Straus/Pippenger switch at 2n+1=190) drawn from a pool of honest entries (canonical torsion-free keys and R, mixed message lengths, several messages per key), with 0..3 corruptions (another honest key, message bit flip, another honest R, another valid S, the cancellation pair S_i+e / S_j-e, duplication; and a dedicated family of single cancellation / swap pairs at structured index distances 1,2,3,4,7,8,16,32,64,128,256 in batches of 2..257 distinct honest entries), and a family of batches of 1..1100 entries with exactly one corrupted entry at a structured position (first, last, around 64/128/256/512, middle, random) or none, error classes (S+l, undecodable R, each kind of slice-length mismatch), permutation and repeated calls; oracle = conjunction of the model's single-verification predicate over the entries (error classes must give Err, never a panic or Ok); non-trivial = >=2 entries with a corruption, n on a regime boundary, an error-class input or a repeated call";
 
 pub fn checks(tier: Tier) -> Vec<Check> {
     vec![
@@ -242,6 +311,25 @@ pub fn checks(tier: Tier) -> Vec<Check> {
             exec: Box::new(crate::ops::exec),
             oracle: Box::new(oracle_cancellation),
             classify: Box::new(|r: &Req, _: &Resp| { let n = r.a[2].len() / 64; if n > 64 { vec!["cancellation-pair-n>64"] } else { vec!["cancellation-pair"] } }),
+            rule: RULE,
+            exhaustive: false,
+            enumerate: None,
+        },
+        Check {
+            name: "C13.batch-single-corruption-positions".into(),
+            strategy: single_corruption(),
+            cases: tier.scale(1_500, 8),
+            exec: Box::new(crate::ops::exec),
+            oracle: Box::new(oracle_single),
+            classify: Box::new(|r: &Req, resp: &Resp| {
+                let n = r.a[2].len() / 64;
+                let mut l = vec![];
+                if n > 256 { l.push("batch-n>256"); }
+                if n > 64 { l.push("batch-n>64"); }
+                if r.a[5][4] == 7 { l.push("untouched-batch-accepted"); } else { l.push("one-corrupted-entry"); }
+                if *resp == Resp::Ok(vec![1]) && r.a[5][4] != 7 { l.push("touched-entry-still-valid"); }
+                l
+            }),
             rule: RULE,
             exhaustive: false,
             enumerate: None,
